@@ -61,6 +61,10 @@
         c := igen.load(Relaxed)
         loop { if c == MAX return MAX; CAS igen c -> c+1 (ord/Relaxed): Ok => return c+1; Err(v) => c := v }
 
+   Locking: no ReleaseMode::Default operation ever stores MAX into igen and the 2^64 wrap-around
+   of that counter is not modelled, so every `== MAX` test above is false and its branch
+   (IsLocked / Locked results) is left out of the step function.
+
    Slot allocator: the owner cells ARE its sequential specification (cell[n] = EMPTY: free; a
    successful cell CAS is the atomic acquire / release of index n; acquire scans upwards and so
    takes the lowest index it finds free).  Its generation counter `igen` carries no information
@@ -311,10 +315,7 @@ Definition step_acc (t : nat) (g : cgst) (l : clst) : option (cgst * clst * list
         end
       end
     | CRec pr :: p =>
-      let e := ld 16 B_IGEN 0 Relaxed (igen g) in
-      if N.eqb (igen g) MAX64
-      then Some (tick g, set_pc (set_prog l p) (RecIncChange 0 true), [e])
-      else Some (tick g, set_pc (set_prog l p) (RecDist2 pr), [e])
+      Some (tick g, set_pc (set_prog l p) (RecDist2 pr), [ld 16 B_IGEN 0 Relaxed (igen g)])
     | CUpd :: p =>
       let e := ld 50 B_CHANGE 0 Acquire (change g) in
       if N.eqb (rchange l) (change g)
@@ -323,9 +324,7 @@ Definition step_acc (t : nat) (g : cgst) (l : clst) : option (cgst * clst * list
     end
   (* ---------------- add ---------------- *)
   | AddLoadIgen v =>
-    let e := ld 10 B_IGEN 0 Acquire (igen g) in
-    if N.eqb (igen g) MAX64 then Some (tick g, done l, [e; ret_add l 64])
-    else Some (g, set_pc l (add_next g v (igen g) 0), [e])
+    Some (g, set_pc l (add_next g v (igen g) 0), [ld 10 B_IGEN 0 Acquire (igen g)])
   | AddScan v cur n =>
     let e := cas_ev 11 B_CELL n Relaxed Relaxed (cells g n) EMPTY me in
     if N.eqb (cells g n) EMPTY
@@ -334,28 +333,14 @@ Definition step_acc (t : nat) (g : cgst) (l : clst) : option (cgst * clst * list
   | AddFinal v cur =>
     let e := cas_ev 12 B_IGEN 0 AcqRel SeqCst (igen g) cur cur in
     if N.eqb (igen g) cur then Some (tick g, done l, [e; ret_add l 0])
-    else if N.eqb (igen g) MAX64 then Some (tick g, done l, [e; ret_add l 64])
     else Some (g, set_pc l (add_next g v (igen g) 0), [e])
   | IncLoad k =>
-    let e := ld 13 B_IGEN 0 Relaxed (igen g) in
-    if N.eqb (igen g) MAX64
-    then match k with
-         | KAdd _ _ => Some (tick g, done l, [e; ret_add l 64])
-         | KRem i gn => Some (g, set_pc l (RemCasGen i gn), [e])
-         | KRec _ acc _ => Some (g, set_pc l (RecIncChange acc true), [e])
-         end
-    else Some (g, set_pc l (IncCas (igen g) k), [e])
+    Some (g, set_pc l (IncCas (igen g) k), [ld 13 B_IGEN 0 Relaxed (igen g)])
   | IncCas c k =>
     let e := cas_ev 14 B_IGEN 0 Release Relaxed (igen g) c (c + 1) in
     if N.eqb (igen g) c
     then Some (set_igen g (c + 1),
                set_pc l (after_inc g k), [e])
-    else if N.eqb (igen g) MAX64
-    then match k with
-         | KAdd _ _ => Some (tick g, done l, [e; ret_add l 64])
-         | KRem i gn => Some (g, set_pc l (RemCasGen i gn), [e])
-         | KRec _ acc _ => Some (g, set_pc l (RecIncChange acc true), [e])
-         end
     else Some (g, set_pc l (IncCas (igen g) k), [e])
   | AddDist0 v n => Some (g, set_pc l (AddLoadGen v n), [dist_ev g 0])
   | AddLoadGen v n =>
@@ -430,7 +415,7 @@ Definition step_acc (t : nat) (g : cgst) (l : clst) : option (cgst * clst * list
     if N.eqb (gens g n) v then Some (set_gens g (fupd (gens g) n (v + 1)), l', [e])
     else Some (g, l', [e])
   | RecEnd acc =>
-    Some (g, set_pc l (RecIncChange acc (N.eqb (igen g) MAX64)), [ld 16 B_IGEN 0 Relaxed (igen g)])
+    Some (g, set_pc l (RecIncChange acc false), [ld 16 B_IGEN 0 Relaxed (igen g)])
   | RecIncChange acc locked =>
     Some (complete g (pend l),
           set_epoch (set_handles (done l) (map (fun _ => None) (handles l))) (epoch l + 1),
